@@ -189,6 +189,23 @@ func c14Gen(r *vh.Rand, tier string, n int, emit func(any)) {
 		for k := r.Range(0, 4); k > 0; k-- {
 			ops = append(ops, face())
 		}
+		if r.Chance(7) && forceRune < 0 {
+			// a large database with many equally ranked footprints (same families, same aspect, every file kind, all
+			// covering the rune asked for): the answer must be the FIRST added among the best, whatever the sort does
+			// with more than a dozen elements
+			forceRune = runes[0]
+			for k := r.Range(13, 34); k > 0; k-- {
+				op := face()
+				if op.K == "face" {
+					op.Family = famPool[k%len(famPool)]
+					op.Style, op.Weight, op.Stretch8 = 0, 0, 0
+					op.File = c14Files[k%len(c14Files)]
+				}
+				ops = append(ops, op)
+			}
+			q := c14Op{K: "query", Families: append([]string(nil), famPool...)}
+			ops = append(ops, q, c14Op{K: "resolve", Rune: runes[0]})
+		}
 		for k := r.Range(3, 26); k > 0; k-- {
 			switch x := r.Intn(100); {
 			case x < 55:
